@@ -1006,31 +1006,47 @@ func checkpointProvenance(w *World, o *Out, fl *Flow, rule string) {
 				continue
 			}
 			n++
-			// the id is (a conversion of) the SmartContractUniqueID field of the value GetChainInfo returned
-			ok := false
-			v := canon(id)
-			for i := 0; i < 4; i++ {
-				switch x := v.(type) {
-				case *ssa.Convert:
-					v = canon(x.X)
-					continue
-				case *ssa.ChangeType:
-					v = canon(x.X)
-					continue
-				}
-				break
-			}
+			// the id is (a conversion of) the SmartContractUniqueID field of the value GetChainInfo returned;
+			// a parameter of a helper extracted after the reference tree is judged at the helper's call sites
 			src := "an unrecognised expression"
-			if name, base := loadedField(v); name == "SmartContractUniqueID" && base != nil {
-				src = "a SmartContractUniqueID field"
-				if fl.DependsOnCall(base, func(c Callee) bool { return c.Name == "GetChainInfo" }) != nil {
-					ok = true
+			var idOK func(v ssa.Value, d int) bool
+			idOK = func(v ssa.Value, d int) bool {
+				v = canon(v)
+				for i := 0; i < 4; i++ {
+					switch x := v.(type) {
+					case *ssa.Convert:
+						v = canon(x.X)
+						continue
+					case *ssa.ChangeType:
+						v = canon(x.X)
+						continue
+					}
+					break
 				}
-			} else if c, isCall := v.(*ssa.Call); isCall {
-				if cal, okc := CalleeOf(c.Common()); okc {
-					src = "the result of " + cal.String()
+				if p, isP := v.(*ssa.Parameter); isP && d < 3 {
+					if h := p.Parent(); isNewHelper(h) && len(ctxSites[h]) > 0 {
+						for _, cs := range ctxSites[h] {
+							for i, q := range h.Params {
+								if q == p && (i >= len(cs.Common().Args) || !idOK(cs.Common().Args[i], d+1)) {
+									return false
+								}
+							}
+						}
+						return true
+					}
 				}
+				if name, base := loadedField(v); name == "SmartContractUniqueID" && base != nil {
+					src = "a SmartContractUniqueID field"
+					return fl.DependsOnCall(base, func(c Callee) bool { return c.Name == "GetChainInfo" }) != nil
+				}
+				if c, isCall := v.(*ssa.Call); isCall {
+					if cal, okc := CalleeOf(c.Common()); okc {
+						src = "the result of " + cal.String()
+					}
+				}
+				return false
 			}
+			ok := idOK(id, 0)
 			_ = calls
 			o.Check(rule, w.FuncKey(TopFunc(f))+"|GetCheckpoint is given the deployment id of the chain's current ChainInfo", ok, w.Pos(s.Instr.Pos()),
 				"the deployment id bound into a checkpoint must be ChainInfo.SmartContractUniqueID as read from the evm keeper (GetChainInfo) at that moment; it is "+src)
